@@ -2,6 +2,7 @@ package c16
 
 import (
 	"fmt"
+	"os"
 	"reflect"
 	"regexp"
 	"sort"
@@ -122,7 +123,7 @@ var litGen = rapid.StringMatching(`[a-z][a-z0-9._/-]{0,4}`)
 
 // cfgLitGen: configured texts may contain what would be argument syntax in a tag (a value is data, never tag text)
 var cfgLitGen = rapid.OneOf(litGen, litGen, rapid.SampledFrom([]string{"a, b", "k=v", "x,required=false", "p q"}))
-var defGen = rapid.OneOf(rapid.StringMatching(`[a-z][a-z0-9._-]{0,4}`), rapid.SampledFrom([]string{"", "d", "http://h.x:80", "x-1"}))
+var defGen = rapid.OneOf(rapid.StringMatching(`[a-z][a-z0-9._-]{0,4}`), rapid.SampledFrom([]string{"", "d", "http://h.x:80", "x-1", "Dear ", " x", " ", "a b "}))
 
 func genPlaceholder(t *rapid.T, depth int, allowAbsent bool) string {
 	var key string
@@ -508,4 +509,12 @@ func TestRetryAfterSet(t *testing.T) {
 		}
 		kit.Rec.Case(strings.Join(hist, ";"), len(hist) >= 3, "retry-after-set")
 	})
+}
+
+func init() {
+	// the process environment is no configuration source: variables spelled like the keys used here (and like their
+	// first segments) must not matter
+	for _, k := range []string{"K0", "K1", "K2", "K3", "K4", "G", "G_A", "G_B", "SEL", "SEL_ONE", "SEL_TWO", "EM", "EL", "ZZ", "NOPE", "S1", "S2", "TBL", "TBL_ONE", "N", "M", "SFX", "C16R", "C16R_PORT", "C16R_HOST", "C16R_PATH"} {
+		os.Setenv(k, "from-the-environment")
+	}
 }
